@@ -212,4 +212,54 @@ theorem C05_history_total (ws : List Int) (h : List Step) : AllGood h (initList 
         exact ⟨a, ih _ _ d⟩
   exact gen h _ _ (by unfold Wf; omega)
 
+/-! ### gslb lock discipline -/
+
+/-- one operation on an unlocked balancer returns and leaves it unlocked — in particular a REJECTED reload
+    (`confTotal conf ≤ 0`) does, and it changes nothing else -/
+theorem C05_gslb_step_releases (g : G) (o : GOp) (h : g.locked = false) :
+    (gStep g o).1 ≠ .hang ∧ (gStep g o).2.locked = false := by
+  cases o with
+  | bal => simp [gStep, gBalance, h, gUnlock]
+  | other => simp [gStep, gSimpleOp, h, gUnlock]
+  | reload c =>
+    simp only [gStep, gReload, h]
+    by_cases hc : confTotal c ≤ 0
+    · simp [hc, gUnlock]
+    · simp [hc, gUnlock]
+
+theorem C05_gslb_rejected_reload_harmless (g : G) (c : List (Nat × Int)) (h : g.locked = false)
+    (hc : confTotal c ≤ 0) : gReload c g = (.ret "rej", g) := by
+  have : gUnlock (gLock g) = g := by cases g; simp_all [gUnlock, gLock]
+  simp [gReload, h, hc, this]
+
+/-- **every gslb operation returns, with the lock released**: in every history of Balance / Reload (valid or
+    rejected) / BackendReload / SetGslbBasic / SetSlowStart operations on a balancer produced by `Init`, no
+    operation blocks on the gslb mutex and the mutex is free at the end -/
+theorem C05_gslb_total (conf : List (Nat × Int)) (g : G) (hg : gInit conf = some g) (ops : List GOp) :
+    (∀ r ∈ (gRun ops g).1, r ≠ .hang) ∧ (gRun ops g).2.locked = false := by
+  have h0 : g.locked = false := by
+    unfold gInit at hg
+    split at hg
+    · cases hg
+    · cases hg; rfl
+  clear hg
+  induction ops generalizing g with
+  | nil => simp [gRun, h0]
+  | cons o rest ih =>
+    obtain ⟨h1, h2⟩ := C05_gslb_step_releases g o h0
+    obtain ⟨h3, h4⟩ := ih (gStep g o).2 h2
+    simp only [gRun]
+    refine ⟨?_, h4⟩
+    intro r hr
+    rcases List.mem_cons.mp hr with rfl | hr
+    · exact h1
+    · exact h3 r hr
+
+/-- a balancer whose mutex was left locked (what a return path without Unlock produces) blocks every later operation -/
+theorem C05_gslb_locked_hangs (g : G) (o : GOp) (h : g.locked = true) : (gStep g o).1 = .hang := by
+  cases o <;> simp [gStep, gBalance, gSimpleOp, gReload, h]
+
+example : (gInit [(1, 60), (2, 40)]).map (fun g => (gRun [.reload [(1, 0), (2, 0)], .bal, .reload [(2, 5)], .other] g).1)
+    = some [.ret "rej", .ret "ret", .ret "ok", .ret "ret"] := by decide
+
 end BfeVerif.C05
